@@ -44,7 +44,7 @@ import (
 
 func TestMain(m *testing.M) { ev.Main(m) }
 
-var rec = ev.For("C28", "rapid-drawn histories: 2-6 fresh variables on an in-process server, one monitor.NodeMonitor subscription (callback or channel flavour, publishing interval 50-100 ms), steps AddNodes / RemoveNodes / write bursts by 2-3 other clients (value = nodeIndex*1e6+k; a burst may keep running during the following Add/Remove steps) / short pauses; one case in eight is 'wide': 101-260 variables, contiguous runs of them added/removed in one call and changed by 1-6 back-to-back WriteRequests that each carry the whole run; non-trivial = (some burst had >= 2 writers, or one WriteRequest changed > 100 monitored nodes) and at least one delivered message carried a written (non-initial) value; distinct by hash of the drawn history")
+var rec = ev.For("C28", "rapid-drawn histories: 2-6 fresh variables on an in-process server, one monitor.NodeMonitor subscription (callback or channel flavour, publishing interval 50-100 ms), steps AddNodes or AddMonitorItems (with one MonitoringParameters struct per node or one shared by all nodes of the call) / RemoveNodes / write bursts by 2-3 other clients (value = nodeIndex*1e6+k; a burst may keep running during the following Add/Remove steps) / short pauses; one case in eight is 'wide': 101-260 variables, contiguous runs of them added/removed in one call and changed by 1-6 back-to-back WriteRequests that each carry the whole run; non-trivial = (some burst had >= 2 writers, or one WriteRequest changed > 100 monitored nodes) and at least one delivered message carried a written (non-initial) value; distinct by hash of the drawn history")
 
 const million = 1_000_000
 
@@ -64,6 +64,9 @@ type Step struct {
 	Nodes  []int  `json:"nodes,omitempty"`  // add / remove
 	Writes [][]W  `json:"writes,omitempty"` // burst: one list per writer
 	Async  bool   `json:"async,omitempty"`  // burst keeps running during the following steps
+	// Params (add): "" = AddNodes; "own" / "shared" = AddMonitorItems with explicit
+	// MonitoringParameters, one struct per node / ONE struct for all nodes of the call
+	Params string `json:"params,omitempty"`
 	Ms     int    `json:"ms,omitempty"`     // pause
 }
 
@@ -189,6 +192,7 @@ func genCase(t *rapid.T) Case {
 		case x < 2:
 			s.Op = "add"
 			s.Nodes = subset(t, c.Vars, "addNode", 1)
+			s.Params = rapid.SampledFrom([]string{"", "", "own", "shared"}).Draw(t, "addParams")
 		case x < 4:
 			s.Op = "remove"
 			s.Nodes = subset(t, c.Vars, "removeNode", 1)
@@ -516,11 +520,32 @@ func execute(c Case, fresh bool) (res result, err error) {
 				classes["add-while-writers-run"] = true
 			}
 			ctx, cancel := opCtx()
-			e := sub.AddNodes(ctx, nodes...)
+			var e error
+			if st.Params == "" {
+				e = sub.AddNodes(ctx, nodes...)
+			} else {
+				mk := func() *ua.MonitoringParameters {
+					return &ua.MonitoringParameters{SamplingInterval: 10, QueueSize: 10, DiscardOldest: true}
+				}
+				shared := mk()
+				var reqs []monitor.Request
+				for _, n := range st.Nodes {
+					r := monitor.Request{NodeID: ids[n], MonitoringMode: ua.MonitoringModeReporting, MonitoringParameters: mk()}
+					if st.Params == "shared" {
+						r.MonitoringParameters = shared
+					}
+					reqs = append(reqs, r)
+				}
+				classes["add-with-MonitoringParameters:"+st.Params] = true
+				if st.Params == "shared" && len(st.Nodes) > 1 {
+					classes["one-MonitoringParameters-struct-shared-by-several-nodes"] = true
+				}
+				_, e = sub.AddMonitorItems(ctx, reqs...)
+			}
 			cancel()
 			if e != nil {
 				join()
-				return res, infra("AddNodes(%v): %v", nodes, e)
+				return res, infra("AddNodes/AddMonitorItems(%v): %v", nodes, e)
 			}
 		case "remove":
 			nodes := make([]string, len(st.Nodes))
